@@ -104,6 +104,8 @@ def replay_routing(arg):
     rows = rec['rows']
     if len({r['id'] for r in rows}) > 1:
         feats.append('several_individuals')
+    if any(r['dose'] != r['dur'] for r in rows):
+        feats.append('dose_and_duration_differ')
     for f in feats:
         cnt['feat_' + f] = 1
 
@@ -114,7 +116,7 @@ def replay_routing(arg):
         return fails, cnt
     frame = pd.DataFrame([{'Subject': r['id'], 'T': 0.5 * r['t'], 'Obs': (np.nan if r['obs'] == 'none' else r['obs']),
                            'Val': 1.0 + r['v'] + 0.01 * k, 'Dose': (np.nan if r['dose'] == 0 else 2.0 * r['dose']),
-                           'Duration': (np.nan if r['dose'] == 0 else 0.1), 'Note': 'x%d' % k} for k, r in enumerate(rows)])
+                           'Duration': (np.nan if r['dur'] == 0 else 0.1), 'Note': 'x%d' % k} for k, r in enumerate(rows)])
     before = frame.copy(deep=True)
     kw = dict(id_key='Subject', time_key='T', obs_key='Obs', value_key='Val')
     exp_traces = []
